@@ -261,11 +261,17 @@ func c19Run(a []string) string {
 		}
 	}
 	// wait for delivery (or closure) with a deadline; then a short settle to catch duplicates
+	// the deadline is an idle deadline: as long as messages keep arriving (a loaded machine is slow, not
+	// lossy) the wait goes on, up to a hard cap
 	end := time.Now().Add(12 * time.Second)
-	for time.Now().Before(end) {
+	hardEnd := time.Now().Add(100 * time.Second)
+	lastTotal := -1
+	for time.Now().Before(end) && time.Now().Before(hardEnd) {
 		done := true
+		total := 0
 		for i, r := range rxs {
 			r.mu.Lock()
+			total += len(r.got)
 			if len(r.got) < expect[i] && !r.closed && r.dc.ReadyState() == webrtc.DataChannelStateOpen {
 				done = false
 			}
@@ -273,6 +279,10 @@ func c19Run(a []string) string {
 		}
 		if done {
 			break
+		}
+		if total != lastTotal {
+			lastTotal = total
+			end = time.Now().Add(12 * time.Second)
 		}
 		time.Sleep(5 * time.Millisecond)
 	}
@@ -305,7 +315,7 @@ func c19Run(a []string) string {
 func init() {
 	registry["C19"] = &Prop{
 		Workers: 8,
-		Timeout: 60 * time.Second,
+		Timeout: 150 * time.Second,
 		Rule: "one loopback connection per op line: 1–4 data channels with seeded parameters (ordered/unordered, " +
 			"maxRetransmits or maxPacketLifeTime or neither, in-band or pre-negotiated, labels/protocols incl. empty, " +
 			"UTF-8 and 300-byte ones), 5–60 messages of sizes from {0,1,2,1200,16384,65535,65536,65537} ∪ random ∪ " +
